@@ -1,3 +1,4 @@
 -- Root of the `Sftp` library: every property file (and through them models, specs, proofs).
 import Sftp.Prim
 import Sftp.Props.C17
+import Sftp.Props.C09
